@@ -28,5 +28,5 @@ for b in blocks:
     json.dump({"property": pid, "breaks": breaks, "needs_to_manifest": "see notes.md", "demo_dir": demo_dir, "demo_tags": "" if tags == "none" else tags,
                "verified": "tools/seedeval.py: demo passes on HEAD and fails with the patch; the listed existing package tests pass with the patch; ./check %s (quick, VERIF_REPO=patched worktree)" % pid,
                "status": "detected by the quick tier", "detected_by_quick_signatures": sigl,
-               "origin": "independent sub-agent (round 2) given only the property text, the list of earlier seeded changes to avoid, and a scratch worktree"}, open(d + "/meta.json", "w"), indent=1, ensure_ascii=False)
+               "origin": "independent sub-agent (round %s) given only the property text, the list of earlier seeded changes to avoid, and a scratch worktree" % (re.sub(r"\D", "", suffix) or "2")}, open(d + "/meta.json", "w"), indent=1, ensure_ascii=False)
     print("kept", d, sigl[:2])
